@@ -39,7 +39,8 @@ UNIT_DEPS = {
     'fmt': ['insig', 'round', 'config', 'types'],
     'insig': ['round', 'config', 'types'],
     'clients': ['add', 'sub', 'mul', 'derived', 'prim_add', 'prim_sub', 'prim_mul', 'canon', 'cmp', 'scale', 'core'],
-    'roots': ['core', 'context', 'config', 'cmp'],
+    'roots': ['core', 'context', 'config', 'cmp', 'cbrt'],
+    'cbrt': ['core', 'context', 'config', 'pow10', 'digits', 'insig', 'round', 'types'],
     'inverse': ['core', 'context', 'config'],
     'prim_div': ['div', 'derived', 'conv', 'inverse'],
     'prec': ['round', 'digits', 'context', 'add', 'core'],
@@ -165,17 +166,21 @@ prop('C10', units=['roots', 'core', 'context', 'config'], level='proof',
      level_note=_NOTE_COMMON + ' A change inside impl_sqrt is not seen by this check except through the replayed inputs.',
      technique=_TECH + '; known findings replayed on the real crate with integer oracles')
 
-prop('C11', units=['roots', 'core', 'context', 'config'], level='proof',
+prop('C11', units=['roots', 'cbrt', 'core', 'context', 'config', 'digits', 'pow10', 'insig', 'round'], level='proof',
      hooks=[_h.replay_hook([
          dict(args=['cbrt_ctx', _X42, '5', 'Up']),
          dict(args=['cbrt_ctx', '-27', '5', 'Floor']), dict(args=['cbrt_ctx', '2', '12', 'Down']), dict(args=['cbrt_ctx', '-2', '12', 'Ceiling']),
          dict(args=['cbrt_ctx', '1e-7', '6', 'HalfUp']), dict(args=['cbrt_ctx', '123456.789', '9', 'Up']),
          # at least 3(p+4) digits with a positive scale that is not a multiple of three
          dict(args=['cbrt_ctx', '123456789012345678901234567890.1', '5', 'Down'])])],
-     level_text=('PARTIAL. Verus proves the entry points only: cbrt() is cbrt_with_context at the configured default context, zero and one are returned unchanged, everything else is '
-                 'handed to the numeric core with its sign. The core impl_cbrt_int_scale / impl_cbrt_uint_scale is NOT under contract; one genuine defect (inexact integer root treated '
-                 'as exact when the trimmed digits are zero) is replayed with an integer oracle and listed as a known finding'),
-     level_note=_NOTE_COMMON + ' A change inside the cube-root core is not seen by this check except through the replayed inputs.',
+     level_text=('PARTIAL, but the numeric core is now under contract. Verus proves on the real bodies of impl_cbrt_int_scale / impl_cbrt_uint_scale (and of WithScale, its From impl, '
+                 'multiply_by_ten_to_the_uint) that for a non-zero x = i * 10^-s the result is  sign(i) * round_mag(R, digits(R) - p)  at scale (s + e)/3 - (digits(R) - p),  where '
+                 'e is the number of appended zeros (enough for 3(p+4) digits, then up to the next exponent making s + e a multiple of three -- proved against truncated i64 division), '
+                 'R = floor(cbrt(|i| * 10^e)) (num-bigint nth_root, assumed), R has more than p digits (so the result has exactly p digits or p+1 after a carry), and round_mag is the mode table applied to '
+                 'ALL dropped digits of R with the sign of x; the three debug assertions of the function are proved; no overflow for |s| <= 2^61, p <= 2^60. Entry points: cbrt() is '
+                 'cbrt_with_context at the configured default context, zero and one are returned unchanged. NOT decided, and a GENUINE DEFECT (known finding, replayed): the remainder '
+                 '|i|*10^e - R^3 is never looked at, so a root that is inexact but whose dropped digits are all zero is rounded as if exact (cbrt(1+1e-42) at p=5, Up gives 1.0000)'),
+     level_note=_NOTE_COMMON + ' The contract states the rounding of the FLOOR cube root, which is what the code computes; it differs from the property (rounding of the real cube root) exactly in the sticky-remainder case recorded as the known finding. Cow<BigUint> + to_mut() is rewritten to an owned copy (R6).',
      technique=_TECH + '; known finding replayed on the real crate with an integer oracle')
 
 prop('C12', units=['inverse', 'prim_div', 'core', 'context', 'config'], level='proof',
